@@ -1,7 +1,15 @@
 (* Model of stanza.NewJid / Jid.Full / Jid.Bare / isUsernameValid / isDomainValid
-   (stanza/jid.go).  Strings are lists of Unicode CODE POINTS (the harness decodes
-   valid UTF-8; '@' and '/' are ASCII, so Go's byte-level SplitN and the rune-level
-   strings.IndexFunc see the same positions).  Executable definitions only.
+   (stanza/jid.go).  Strings are lists of UNITS, Go's own reading of a byte string
+   (for range / utf8.DecodeRune): a Unicode code point for each well-formed UTF-8
+   sequence, and 0x110000 + b for each byte b that is not part of one (Go's rune
+   functions see U+FFFD there; the unit keeps the byte so that nothing is lost: the
+   map is a bijection between byte strings and the unit lists it produces, and it
+   commutes with cutting at / joining with the ASCII bytes '@' and '/', which are never
+   part of a longer sequence - so Go's byte-level SplitN, the rune-level
+   strings.IndexFunc and byte concatenation in Full/Bare see the same pieces as
+   split_first, none_invalid and ++ here).  is_invalid is false on every unit
+   >= 0x110000, as it is on U+FFFD (Proofs/JidP.v high_unit_ok).
+   Executable definitions only.
 
    Full is modelled as REPAIRED (finding D4): a domain JID with a resource renders
    as domain "/" resource (the unrepaired code wrote j.Node, i.e. "", for the domain). *)
